@@ -246,6 +246,31 @@ func (x *Run) runBlock(fr *Frame, b *ssa.BasicBlock, idx int, st *State) []Outco
 			if c.T == "false" {
 				return append(outs, x.enterBlock(fr, b, b.Succs[1], st)...)
 			}
+			// the path condition already decides this branch (the same test was made
+			// earlier on this path): follow the one feasible arm only
+			{
+				neg := not(c.T)
+				known := 0
+				for i := len(st.pc) - 1; i >= 0; i-- {
+					pl := pcPlain(st.pc[i])
+					if pl == c.T {
+						known = 1
+						break
+					}
+					if pl == neg {
+						known = 2
+						break
+					}
+				}
+				if known == 1 {
+					st.trace = append(st.trace, x.branchLabel(ins, true))
+					return append(outs, x.enterBlock(fr, b, b.Succs[0], st)...)
+				}
+				if known == 2 {
+					st.trace = append(st.trace, x.branchLabel(ins, false))
+					return append(outs, x.enterBlock(fr, b, b.Succs[1], st)...)
+				}
+			}
 			if mo, ok := x.tryMerge(fr, st, b, ins, c); ok {
 				return append(outs, mo...)
 			}
